@@ -569,6 +569,10 @@ structure TxWF (e : Env) (i : Nat) : Prop where
   self : ∀ r ∈ (e.tx i).ins, r.tx ≠ i
   kout : koutDistinct (e.tx i)
 
+instance (e : Env) (i : Nat) : Decidable (TxWF e i) :=
+  decidable_of_iff ((e.tx i).id = i ∧ (∀ r ∈ (e.tx i).ins, r.tx ≠ i) ∧ koutDistinct (e.tx i))
+    ⟨fun ⟨a, b, c⟩ => ⟨a, b, c⟩, fun h => ⟨h.id, h.self, h.kout⟩⟩
+
 /-- `citesFrozen` for every transaction of the block at its point of application (the state after the
 transactions before it, fees paid) -/
 def FrozenAlong (e : Env) (prop : String) : List Nat → St → Prop
@@ -3140,6 +3144,163 @@ private theorem dup_split (L : List Nat) (hnd : L.Nodup) : ∀ (X Y : List Nat) 
           exact hnd.1 (hsub _ this)
         · exact ih hnd.2 X' Y i a h3 hx haY
 
+-- ================================================================== is an accepted block replayable? — after the repair: yes
+
+/-- the honest formulation of "`ChainValid` of every block that gets applied", literally at the SAME ledger height: a block
+that `play` ACCEPTS, on a node whose state is "a well-formed base state `R` + a valid pool" with fresh ids everywhere, is
+accepted by a fresh replica that is at `R` (`todoBlock`: every transaction of the block admitted in block order) -/
+def accepted_block_replayable_statement : Prop :=
+  ∀ (e : Env) (s : St) (lh : Int) (b : Block) (R : St),
+    KVInv e R → PoolValid e s.pool R → s.pool.Nodup → TRefines s (applyPool e s.pool R) →
+    (∀ i ∈ s.pool ++ b.txs, ∀ o, lookup R.U (i, o) = none) →
+    (∀ i ∈ s.pool ++ b.txs, ∀ k o, curVer R k ≠ some (i, o)) →
+    FrozenInv e R → (∀ i ∈ s.pool ++ b.txs, StaticFrozen e i ∧ TxWF e i) → b.txs.Nodup →
+    (play e s lh b).2 = .ok → (todoBlock e R lh b).isSome = true
+
+-- THE CODE AS FOUND (defect (2), reproduced on the Go code: corpus/C01/block-confirms-stale-pending-reader.ops). Before the
+-- repair of `processUnconfirmTxs` the model had no guard `staleMember`, and the statement above was refuted
+-- (`accepted_block_replayable_refuted`, by this witness, found by random search on the executable model): base state: key
+-- "b" live at version (1,0). Pool = [10]: transaction 10 only READS "b"@(1,0) (no token part, no write). Block 2 =
+-- [99, 30, 10]: the award 99, the NEW transaction 30 that overwrites "b"@(1,0), then the pending 10. The node as found:
+-- nothing conflicts (10 is in the block, so it is not examined by the conflict test), 99 and 30 are admitted and applied,
+-- 10 is skipped as already applied — the block was ACCEPTED. A fresh replica applies 99, 30 and then refuses 10: its read
+-- "b"@(1,0) is stale, the key is at (30,0). The model without the guard is not available any more; what can be stated is
+-- that the repaired node REFUSES the witness block (`ErrRWSetInvalid`), as the replica does:
+private def arEnv : Env := {
+  txs := [
+    (1, ⟨1, false, [], [], [⟨"b", none⟩], [⟨"b", "x", false⟩]⟩),
+    (10, ⟨10, false, [], [], [⟨"b", some (1, 0)⟩], []⟩),
+    (30, ⟨30, false, [], [], [⟨"b", some (1, 0)⟩], [⟨"b", "y", false⟩]⟩),
+    (99, ⟨99, true, [], [⟨"m", 7, 0⟩], [], []⟩)],
+  blocks := [(1, ⟨1, none, 1, [1], "m"⟩), (2, ⟨2, some 1, 2, [99, 30, 10], "m"⟩)] }
+private def arR : St := { ZU := [("b", (1, 0))], pointer := 1 }
+private def arS : St := { applyPool arEnv [10] arR with pool := [10] }
+
+example : arS.pool = [10] ∧ staleMember arEnv arS.pool [] (arEnv.block 2).txs = true ∧
+    (play arEnv arS 0 (arEnv.block 2)).2 = .rwset ∧ (play arEnv arS 0 (arEnv.block 2)).1.pool = [10] ∧
+    (play arEnv arS 0 (arEnv.block 2)).1.pointer = 1 ∧
+    (todoBlock arEnv arR 0 (arEnv.block 2)).isSome = false ∧
+    admitTx (replayTxs arEnv "m" [99, 30] arR) 0 (arEnv.tx 10) = .rwset ∧
+    -- the same block with the reader standing BEFORE the overwriter is accepted by the node and by the replica
+    (play arEnv arS 0 ⟨2, some 1, 2, [99, 10, 30], "m"⟩).2 = .ok ∧
+    (todoBlock arEnv arR 0 ⟨2, some 1, 2, [99, 10, 30], "m"⟩).isSome = true := by decide
+
+private theorem play_ok_nodup (e : Env) (s : St) (lh : Int) (b : Block) (hok : (play e s lh b).2 = .ok) :
+    blockHasDupInput e b.txs = false := by
+  unfold play at hok
+  by_cases h1 : b.pre ≠ some s.pointer
+  · rw [if_pos h1] at hok; cases hok
+  · rw [if_neg h1] at hok
+    by_cases h2 : blockHasDupInput e b.txs = true
+    · rw [if_pos h2] at hok; cases hok
+    · simpa using h2
+
+/-- **an accepted block IS replayable** (after the repair of `processUnconfirmTxs`; of the code as found this was false,
+see above). Under the hypotheses of `accepted_block_replayable_statement` — nothing else: the former extra hypothesis
+`NoStaleMember` of `accepted_block_replayable_partial` is now what the guard `staleMember` of `play` establishes, in the
+exact form needed (a pending member of the block read, of every key written earlier in the block, the last version
+written before it: `staleMember_false`; `NoStaleMember` asked more than that — no earlier write at all to a key a pending
+member only reads — and is not implied by the guard) — a fresh replica at `R` applies every transaction of the block in
+block order, at every ledger height from some height `lh0` on. Why not "at `lh` itself": admission is monotone in the
+ledger height, and the pending members of the block were admitted at the heights of their submission, which the model
+does not tie to `lh` (`accepted_block_replayable_same_height_refuted`). -/
+theorem accepted_block_replayable (e : Env) (s : St) (lh : Int) (b : Block) (R : St)
+    (hinv : KVInv e R) (hpool : PoolValid e s.pool R) (hnd : s.pool.Nodup)
+    (hs : TRefines s (applyPool e s.pool R))
+    (hfreshU : ∀ i ∈ s.pool ++ b.txs, ∀ o, lookup R.U (i, o) = none)
+    (hfreshV : ∀ i ∈ s.pool ++ b.txs, ∀ k o, curVer R k ≠ some (i, o))
+    (hfz : FrozenInv e R) (hst : ∀ i ∈ s.pool ++ b.txs, StaticFrozen e i ∧ TxWF e i) (hndB : b.txs.Nodup)
+    (hok : (play e s lh b).2 = .ok) :
+    ∃ lh0, ∀ lh', lh0 ≤ lh' → (todoBlock e R lh' b).isSome = true := by
+  have hP := (poolValid_iff e _ _).mp hpool
+  have hwP := hP.wf
+  obtain ⟨tE, pK, pEv⟩ := play_evict_form e s b R hP hnd (fun i hi => hfreshU i (List.mem_append_left _ hi)) hfz
+    (fun i hi => (hst i (List.mem_append_left _ hi)).1)
+  have hKV : KVInv e (applyPool e (s.pool.filter (fun i => !(playEvict e s b).contains i)) R) :=
+    applyPool_KVInv e _ _ (fun i hi => (hwP i (List.mem_filter.mp hi).1).id) hinv
+  have hs1 : TRefines (playUndone e s b)
+      (applyPool e (s.pool.filter (fun i => !(playEvict e s b).contains i)) R) := by
+    rw [playUndone_eq]
+    exact rollback_applyPool e _ _ ((poolValid_iff e _ _).mpr pEv) hKV s (hs.trans tE.trefines)
+  have hv := play_replayable_form e s lh b R hok hP hnd pK hs1
+    (fun i hi => (txWF_iff e i).mp (hst i (List.mem_append_right _ hi)).2) hndB hfreshU hfreshV
+    (play_ok_noStale e s lh b hok)
+  obtain ⟨lh0, s2, hfwd⟩ := applyBlockTxs_of_pValid e b.prop b.txs R hv
+  refine ⟨lh0, fun lh' hle => ?_⟩
+  unfold todoBlock
+  rw [play_ok_nodup e s lh b hok, applyBlockTxs_mono e lh0 lh' hle b.prop b.txs R s2 hfwd]
+  rfl
+
+/-- the form the closing induction uses: the forward part of `BlockValid` -/
+theorem accepted_block_fwd (e : Env) (s : St) (lh : Int) (b : Block) (R : St)
+    (hinv : KVInv e R) (hpool : PoolValid e s.pool R) (hnd : s.pool.Nodup)
+    (hs : TRefines s (applyPool e s.pool R))
+    (hfreshU : ∀ i ∈ s.pool ++ b.txs, ∀ o, lookup R.U (i, o) = none)
+    (hfreshV : ∀ i ∈ s.pool ++ b.txs, ∀ k o, curVer R k ≠ some (i, o))
+    (hfz : FrozenInv e R) (hst : ∀ i ∈ s.pool ++ b.txs, StaticFrozen e i ∧ TxWF e i) (hndB : b.txs.Nodup)
+    (hok : (play e s lh b).2 = .ok) :
+    ∃ lh' s2, applyBlockTxs e lh' b.prop [] b.txs R = some (s2, .ok) := by
+  obtain ⟨lh0, h⟩ := accepted_block_replayable e s lh b R hinv hpool hnd hs hfreshU hfreshV hfz hst hndB hok
+  have h0 := h lh0 (Int.le_refl _)
+  unfold todoBlock at h0
+  split at h0
+  · cases h0
+  · split at h0
+    · rename_i s2 heq
+      exact ⟨lh0, s2, heq⟩
+    · cases h0
+
+-- the literal same-height statement fails for a reason that has nothing to do with the pool processing: ledger heights.
+-- Base state: row (1,0) of u0, frozen until height 10. Pool = [10]: transaction 10 spends it (admitted when the ledger was
+-- at height 10). Block 2 = [99, 10] played at ledger height 0: the pending member is skipped; a replica at height 0 refuses
+-- it (the output is still frozen), at every height >= 10 it accepts. A node's ledger height only decreases by `Truncate`.
+private def ahEnv : Env := {
+  txs := [
+    (1, ⟨1, true, [], [⟨"u0", 5, 10⟩], [], []⟩),
+    (10, ⟨10, false, [⟨1, 0, "u0", 5, 10, false⟩], [⟨"u1", 5, 0⟩], [], []⟩),
+    (99, ⟨99, true, [], [⟨"m", 7, 0⟩], [], []⟩)],
+  blocks := [(1, ⟨1, none, 1, [1], "m"⟩), (2, ⟨2, some 1, 2, [99, 10], "m"⟩)] }
+private def ahR : St := { U := [((1, 0), ⟨"u0", 5, 10⟩)], total := 5, pointer := 1 }
+private def ahS : St := { applyPool ahEnv [10] ahR with pool := [10] }
+
+example : admitTx ahR 10 (ahEnv.tx 10) = .ok ∧ admitTx ahR 0 (ahEnv.tx 10) = .frozen ∧
+    (play ahEnv ahS 0 (ahEnv.block 2)).2 = .ok ∧ (todoBlock ahEnv ahR 0 (ahEnv.block 2)).isSome = false ∧
+    (todoBlock ahEnv ahR 10 (ahEnv.block 2)).isSome = true := by decide
+
+/-- the literal same-height statement is false in the model — by ledger heights only (see the comment above); the
+statement that holds is `accepted_block_replayable` -/
+theorem accepted_block_replayable_same_height_refuted : ¬ accepted_block_replayable_statement := by
+  intro h
+  have := h ahEnv ahS 0 (ahEnv.block 2) ahR (by apply KVInv_of_rows <;> decide)
+    ⟨⟨10, by decide⟩, ⟨by decide, by decide, by decide⟩, absent_of_rows _ _ (by decide), by decide, trivial⟩
+    (by decide) ((TRefines.refl _).of_tables ⟨rfl, rfl, rfl, rfl⟩ ⟨rfl, rfl, rfl, rfl⟩)
+    (fun i hi => absent_of_rows _ i (by revert i hi; decide))
+    (fun i hi => verFresh_of_rows _ i (by revert i hi; decide) (by revert i hi; decide))
+    (frozenInv_of_rows _ _ (by decide)) (by decide) (by decide) (by decide)
+  revert this
+  decide
+
+-- non-vacuity of `accepted_block_replayable`: the accepted block of the `play_refines` example (a pending member that
+-- writes the key it reads, a new transaction, two evictions) is replayable
+example : (play prEnv prS 0 (prEnv.block 2)).2 = .ok ∧ staleMember prEnv prS.pool [] (prEnv.block 2).txs = false ∧
+    (todoBlock prEnv (canon prEnv prG 1) 0 (prEnv.block 2)).isSome = true := by decide
+example : ∀ i ∈ prS.pool ++ (prEnv.block 2).txs, StaticFrozen prEnv i ∧ TxWF prEnv i := by decide
+example : ∀ i ∈ prS.pool ++ (prEnv.block 2).txs, ∀ o, lookup (canon prEnv prG 1).U (i, o) = none :=
+  fun i hi => absent_of_rows _ i (by revert i hi; decide)
+-- the guard admits what `NoStaleMember` (the hypothesis of the former partial theorem) excluded: a pending member that
+-- only reads a key at the version an earlier PENDING member of the block wrote. Pool [30, 10]: 30 overwrites "b"@(1,0), 10
+-- reads "b"@(30,0); block [99, 30, 10]: accepted, and replayable
+example :
+    let e : Env := { arEnv with txs := arEnv.txs.map (fun p =>
+      if p.1 = 10 then (10, ⟨10, false, [], [], [⟨"b", some (30, 0)⟩], []⟩) else p) }
+    let s : St := { applyPool e [30, 10] arR with pool := [30, 10] }
+    (play e s 0 (e.block 2)).2 = .ok ∧ (play e s 0 (e.block 2)).1.pool = [] ∧
+    (todoBlock e arR 0 (e.block 2)).isSome = true ∧
+    -- `NoStaleMember` as it was defined fails here
+    ¬ (∀ i ∈ (e.block 2).txs, ∀ a ∈ (e.block 2).txs, [i, a].Sublist (e.block 2).txs → a ∈ s.pool →
+        ∀ pk ∈ (e.tx a).kin, (∀ ko ∈ (e.tx a).kout, ko.key ≠ pk.key) → ∀ ko ∈ (e.tx i).kout, ko.key ≠ pk.key) := by
+  decide
+
 -- ================================================================== the closing induction over histories
 
 /-- the hypotheses on the environment (static: they do not mention the node). Block tree with parent links strictly
@@ -3805,10 +3966,6 @@ theorem chain_observables (e : Env) (g s0 : St) (ops : List HOp) (he : EnvOK e g
 
 -- ------------------------------------------------------------------ checkable forms, for concrete environments
 
-instance (e : Env) (i : Nat) : Decidable (TxWF e i) :=
-  decidable_of_iff ((e.tx i).id = i ∧ (∀ r ∈ (e.tx i).ins, r.tx ≠ i) ∧ koutDistinct (e.tx i))
-    ⟨fun ⟨a, b, c⟩ => ⟨a, b, c⟩, fun h => ⟨h.id, h.self, h.kout⟩⟩
-
 /-- checkable form of `BlockValid`, at ledger height `lh` -/
 def BlockCheck (e : Env) (lh : Int) (r : St) (b : Block) : Prop :=
   (applyBlockTxs e lh b.prop [] b.txs r).map (·.2) = some .ok ∧ (∀ i ∈ b.txs, TxWF e i) ∧ b.txs.Nodup ∧
@@ -3929,163 +4086,6 @@ example : ¬ HistOK rdEnv {} rdS0 (rdOps []) ∧ (hrun rdEnv rdS0 (rdOps [])).po
     (hrun rdEnv rdS0 (rdOps [])).pool = [50] := by decide
 example : ¬ Inv rdEnv {} (hrun rdEnv rdS0 (rdOps [])) :=
   fun h => h.disjoint 50 (by decide) (by decide)
-
--- ================================================================== is an accepted block replayable? — after the repair: yes
-
-/-- the honest formulation of "`ChainValid` of every block that gets applied", literally at the SAME ledger height: a block
-that `play` ACCEPTS, on a node whose state is "a well-formed base state `R` + a valid pool" with fresh ids everywhere, is
-accepted by a fresh replica that is at `R` (`todoBlock`: every transaction of the block admitted in block order) -/
-def accepted_block_replayable_statement : Prop :=
-  ∀ (e : Env) (s : St) (lh : Int) (b : Block) (R : St),
-    KVInv e R → PoolValid e s.pool R → s.pool.Nodup → TRefines s (applyPool e s.pool R) →
-    (∀ i ∈ s.pool ++ b.txs, ∀ o, lookup R.U (i, o) = none) →
-    (∀ i ∈ s.pool ++ b.txs, ∀ k o, curVer R k ≠ some (i, o)) →
-    FrozenInv e R → (∀ i ∈ s.pool ++ b.txs, StaticFrozen e i ∧ TxWF e i) → b.txs.Nodup →
-    (play e s lh b).2 = .ok → (todoBlock e R lh b).isSome = true
-
--- THE CODE AS FOUND (defect (2), reproduced on the Go code: corpus/C01/block-confirms-stale-pending-reader.ops). Before the
--- repair of `processUnconfirmTxs` the model had no guard `staleMember`, and the statement above was refuted
--- (`accepted_block_replayable_refuted`, by this witness, found by random search on the executable model): base state: key
--- "b" live at version (1,0). Pool = [10]: transaction 10 only READS "b"@(1,0) (no token part, no write). Block 2 =
--- [99, 30, 10]: the award 99, the NEW transaction 30 that overwrites "b"@(1,0), then the pending 10. The node as found:
--- nothing conflicts (10 is in the block, so it is not examined by the conflict test), 99 and 30 are admitted and applied,
--- 10 is skipped as already applied — the block was ACCEPTED. A fresh replica applies 99, 30 and then refuses 10: its read
--- "b"@(1,0) is stale, the key is at (30,0). The model without the guard is not available any more; what can be stated is
--- that the repaired node REFUSES the witness block (`ErrRWSetInvalid`), as the replica does:
-private def arEnv : Env := {
-  txs := [
-    (1, ⟨1, false, [], [], [⟨"b", none⟩], [⟨"b", "x", false⟩]⟩),
-    (10, ⟨10, false, [], [], [⟨"b", some (1, 0)⟩], []⟩),
-    (30, ⟨30, false, [], [], [⟨"b", some (1, 0)⟩], [⟨"b", "y", false⟩]⟩),
-    (99, ⟨99, true, [], [⟨"m", 7, 0⟩], [], []⟩)],
-  blocks := [(1, ⟨1, none, 1, [1], "m"⟩), (2, ⟨2, some 1, 2, [99, 30, 10], "m"⟩)] }
-private def arR : St := { ZU := [("b", (1, 0))], pointer := 1 }
-private def arS : St := { applyPool arEnv [10] arR with pool := [10] }
-
-example : arS.pool = [10] ∧ staleMember arEnv arS.pool [] (arEnv.block 2).txs = true ∧
-    (play arEnv arS 0 (arEnv.block 2)).2 = .rwset ∧ (play arEnv arS 0 (arEnv.block 2)).1.pool = [10] ∧
-    (play arEnv arS 0 (arEnv.block 2)).1.pointer = 1 ∧
-    (todoBlock arEnv arR 0 (arEnv.block 2)).isSome = false ∧
-    admitTx (replayTxs arEnv "m" [99, 30] arR) 0 (arEnv.tx 10) = .rwset ∧
-    -- the same block with the reader standing BEFORE the overwriter is accepted by the node and by the replica
-    (play arEnv arS 0 ⟨2, some 1, 2, [99, 10, 30], "m"⟩).2 = .ok ∧
-    (todoBlock arEnv arR 0 ⟨2, some 1, 2, [99, 10, 30], "m"⟩).isSome = true := by decide
-
-private theorem play_ok_nodup (e : Env) (s : St) (lh : Int) (b : Block) (hok : (play e s lh b).2 = .ok) :
-    blockHasDupInput e b.txs = false := by
-  unfold play at hok
-  by_cases h1 : b.pre ≠ some s.pointer
-  · rw [if_pos h1] at hok; cases hok
-  · rw [if_neg h1] at hok
-    by_cases h2 : blockHasDupInput e b.txs = true
-    · rw [if_pos h2] at hok; cases hok
-    · simpa using h2
-
-/-- **an accepted block IS replayable** (after the repair of `processUnconfirmTxs`; of the code as found this was false,
-see above). Under the hypotheses of `accepted_block_replayable_statement` — nothing else: the former extra hypothesis
-`NoStaleMember` of `accepted_block_replayable_partial` is now what the guard `staleMember` of `play` establishes, in the
-exact form needed (a pending member of the block read, of every key written earlier in the block, the last version
-written before it: `staleMember_false`; `NoStaleMember` asked more than that — no earlier write at all to a key a pending
-member only reads — and is not implied by the guard) — a fresh replica at `R` applies every transaction of the block in
-block order, at every ledger height from some height `lh0` on. Why not "at `lh` itself": admission is monotone in the
-ledger height, and the pending members of the block were admitted at the heights of their submission, which the model
-does not tie to `lh` (`accepted_block_replayable_same_height_refuted`). -/
-theorem accepted_block_replayable (e : Env) (s : St) (lh : Int) (b : Block) (R : St)
-    (hinv : KVInv e R) (hpool : PoolValid e s.pool R) (hnd : s.pool.Nodup)
-    (hs : TRefines s (applyPool e s.pool R))
-    (hfreshU : ∀ i ∈ s.pool ++ b.txs, ∀ o, lookup R.U (i, o) = none)
-    (hfreshV : ∀ i ∈ s.pool ++ b.txs, ∀ k o, curVer R k ≠ some (i, o))
-    (hfz : FrozenInv e R) (hst : ∀ i ∈ s.pool ++ b.txs, StaticFrozen e i ∧ TxWF e i) (hndB : b.txs.Nodup)
-    (hok : (play e s lh b).2 = .ok) :
-    ∃ lh0, ∀ lh', lh0 ≤ lh' → (todoBlock e R lh' b).isSome = true := by
-  have hP := (poolValid_iff e _ _).mp hpool
-  have hwP := hP.wf
-  obtain ⟨tE, pK, pEv⟩ := play_evict_form e s b R hP hnd (fun i hi => hfreshU i (List.mem_append_left _ hi)) hfz
-    (fun i hi => (hst i (List.mem_append_left _ hi)).1)
-  have hKV : KVInv e (applyPool e (s.pool.filter (fun i => !(playEvict e s b).contains i)) R) :=
-    applyPool_KVInv e _ _ (fun i hi => (hwP i (List.mem_filter.mp hi).1).id) hinv
-  have hs1 : TRefines (playUndone e s b)
-      (applyPool e (s.pool.filter (fun i => !(playEvict e s b).contains i)) R) := by
-    rw [playUndone_eq]
-    exact rollback_applyPool e _ _ ((poolValid_iff e _ _).mpr pEv) hKV s (hs.trans tE.trefines)
-  have hv := play_replayable_form e s lh b R hok hP hnd pK hs1
-    (fun i hi => (txWF_iff e i).mp (hst i (List.mem_append_right _ hi)).2) hndB hfreshU hfreshV
-    (play_ok_noStale e s lh b hok)
-  obtain ⟨lh0, s2, hfwd⟩ := applyBlockTxs_of_pValid e b.prop b.txs R hv
-  refine ⟨lh0, fun lh' hle => ?_⟩
-  unfold todoBlock
-  rw [play_ok_nodup e s lh b hok, applyBlockTxs_mono e lh0 lh' hle b.prop b.txs R s2 hfwd]
-  rfl
-
-/-- the form the closing induction uses: the forward part of `BlockValid` -/
-theorem accepted_block_fwd (e : Env) (s : St) (lh : Int) (b : Block) (R : St)
-    (hinv : KVInv e R) (hpool : PoolValid e s.pool R) (hnd : s.pool.Nodup)
-    (hs : TRefines s (applyPool e s.pool R))
-    (hfreshU : ∀ i ∈ s.pool ++ b.txs, ∀ o, lookup R.U (i, o) = none)
-    (hfreshV : ∀ i ∈ s.pool ++ b.txs, ∀ k o, curVer R k ≠ some (i, o))
-    (hfz : FrozenInv e R) (hst : ∀ i ∈ s.pool ++ b.txs, StaticFrozen e i ∧ TxWF e i) (hndB : b.txs.Nodup)
-    (hok : (play e s lh b).2 = .ok) :
-    ∃ lh' s2, applyBlockTxs e lh' b.prop [] b.txs R = some (s2, .ok) := by
-  obtain ⟨lh0, h⟩ := accepted_block_replayable e s lh b R hinv hpool hnd hs hfreshU hfreshV hfz hst hndB hok
-  have h0 := h lh0 (Int.le_refl _)
-  unfold todoBlock at h0
-  split at h0
-  · cases h0
-  · split at h0
-    · rename_i s2 heq
-      exact ⟨lh0, s2, heq⟩
-    · cases h0
-
--- the literal same-height statement fails for a reason that has nothing to do with the pool processing: ledger heights.
--- Base state: row (1,0) of u0, frozen until height 10. Pool = [10]: transaction 10 spends it (admitted when the ledger was
--- at height 10). Block 2 = [99, 10] played at ledger height 0: the pending member is skipped; a replica at height 0 refuses
--- it (the output is still frozen), at every height >= 10 it accepts. A node's ledger height only decreases by `Truncate`.
-private def ahEnv : Env := {
-  txs := [
-    (1, ⟨1, true, [], [⟨"u0", 5, 10⟩], [], []⟩),
-    (10, ⟨10, false, [⟨1, 0, "u0", 5, 10, false⟩], [⟨"u1", 5, 0⟩], [], []⟩),
-    (99, ⟨99, true, [], [⟨"m", 7, 0⟩], [], []⟩)],
-  blocks := [(1, ⟨1, none, 1, [1], "m"⟩), (2, ⟨2, some 1, 2, [99, 10], "m"⟩)] }
-private def ahR : St := { U := [((1, 0), ⟨"u0", 5, 10⟩)], total := 5, pointer := 1 }
-private def ahS : St := { applyPool ahEnv [10] ahR with pool := [10] }
-
-example : admitTx ahR 10 (ahEnv.tx 10) = .ok ∧ admitTx ahR 0 (ahEnv.tx 10) = .frozen ∧
-    (play ahEnv ahS 0 (ahEnv.block 2)).2 = .ok ∧ (todoBlock ahEnv ahR 0 (ahEnv.block 2)).isSome = false ∧
-    (todoBlock ahEnv ahR 10 (ahEnv.block 2)).isSome = true := by decide
-
-/-- the literal same-height statement is false in the model — by ledger heights only (see the comment above); the
-statement that holds is `accepted_block_replayable` -/
-theorem accepted_block_replayable_same_height_refuted : ¬ accepted_block_replayable_statement := by
-  intro h
-  have := h ahEnv ahS 0 (ahEnv.block 2) ahR (by apply KVInv_of_rows <;> decide)
-    ⟨⟨10, by decide⟩, ⟨by decide, by decide, by decide⟩, absent_of_rows _ _ (by decide), by decide, trivial⟩
-    (by decide) ((TRefines.refl _).of_tables ⟨rfl, rfl, rfl, rfl⟩ ⟨rfl, rfl, rfl, rfl⟩)
-    (fun i hi => absent_of_rows _ i (by revert i hi; decide))
-    (fun i hi => verFresh_of_rows _ i (by revert i hi; decide) (by revert i hi; decide))
-    (frozenInv_of_rows _ _ (by decide)) (by decide) (by decide) (by decide)
-  revert this
-  decide
-
--- non-vacuity of `accepted_block_replayable`: the accepted block of the `play_refines` example (a pending member that
--- writes the key it reads, a new transaction, two evictions) is replayable
-example : (play prEnv prS 0 (prEnv.block 2)).2 = .ok ∧ staleMember prEnv prS.pool [] (prEnv.block 2).txs = false ∧
-    (todoBlock prEnv (canon prEnv prG 1) 0 (prEnv.block 2)).isSome = true := by decide
-example : ∀ i ∈ prS.pool ++ (prEnv.block 2).txs, StaticFrozen prEnv i ∧ TxWF prEnv i := by decide
-example : ∀ i ∈ prS.pool ++ (prEnv.block 2).txs, ∀ o, lookup (canon prEnv prG 1).U (i, o) = none :=
-  fun i hi => absent_of_rows _ i (by revert i hi; decide)
--- the guard admits what `NoStaleMember` (the hypothesis of the former partial theorem) excluded: a pending member that
--- only reads a key at the version an earlier PENDING member of the block wrote. Pool [30, 10]: 30 overwrites "b"@(1,0), 10
--- reads "b"@(30,0); block [99, 30, 10]: accepted, and replayable
-example :
-    let e : Env := { arEnv with txs := arEnv.txs.map (fun p =>
-      if p.1 = 10 then (10, ⟨10, false, [], [], [⟨"b", some (30, 0)⟩], []⟩) else p) }
-    let s : St := { applyPool e [30, 10] arR with pool := [30, 10] }
-    (play e s 0 (e.block 2)).2 = .ok ∧ (play e s 0 (e.block 2)).1.pool = [] ∧
-    (todoBlock e arR 0 (e.block 2)).isSome = true ∧
-    -- `NoStaleMember` as it was defined fails here
-    ¬ (∀ i ∈ (e.block 2).txs, ∀ a ∈ (e.block 2).txs, [i, a].Sublist (e.block 2).txs → a ∈ s.pool →
-        ∀ pk ∈ (e.tx a).kin, (∀ ko ∈ (e.tx a).kout, ko.key ≠ pk.key) → ∀ ko ∈ (e.tx i).kout, ko.key ≠ pk.key) := by
-  decide
 
 -- ================================================================== walking away and back
 
